@@ -25,6 +25,7 @@ import (
 	"fmt"
 	"math/big"
 	"os"
+	"sort"
 	"strings"
 	"testing"
 
@@ -479,6 +480,9 @@ func TestVerifC05_verify25519(t *testing.T) {
 	vs := []*eddsa.Variant{eddsa.Ed25519, eddsa.Ed25519ctx, eddsa.Ed25519ph}
 	// quick tier, configurations other than default: one base per variant, no bit flips (declared)
 	light := !r.Thorough() && r.Config() != "default"
+	// vacuity floors: summed over the Cases calls actually made (c05kit.Floors: derived from the
+	// alphabet and the reference's classification by construction, never from the library's answers)
+	want := map[string]int64{}
 	if light {
 		r.NotExhaustive("quick tier, non-default configuration: base b0 only, no single-bit flips")
 	}
@@ -499,6 +503,9 @@ func TestVerifC05_verify25519(t *testing.T) {
 				r.NotExhaustive("quick tier: single-bit flips only on base b0 of plain Ed25519")
 			}
 			cases := c05kit.Cases(v, b, c05kit.Options{Flips: flips})
+			for k, n := range c05kit.Floors(v, c05kit.Options{Flips: flips}) {
+				want[k] += n
+			}
 			if errs := c05kit.Judge(r, verifmc.ParallelFor, "verify25519", v, c05Entries25519(v), cases); len(errs) > 0 {
 				t.Fatalf("harness-internal: %v", errs)
 			}
@@ -521,24 +528,13 @@ func TestVerifC05_verify25519(t *testing.T) {
 			}
 		}
 	}
-	fl := func(n int64) int64 {
-		if light {
-			return n / 4
-		}
-		return n
+	var names []string
+	for k := range want {
+		names = append(names, k)
 	}
-	r.RequireCounter("class:must-accept", fl(6))
-	r.RequireCounter("class:either", fl(30))
-	r.RequireCounter("reason:S>=L", fl(60))
-	r.RequireCounter("reason:A-not-canonical-point", fl(200))
-	r.RequireCounter("reason:R-not-canonical-point", fl(200))
-	r.RequireCounter("reason:cofactored-equation-fails", fl(300))
-	r.RequireCounter("reason:context-too-long", fl(8))
-	r.RequireCounter("lax:canonical-y", fl(12))
-	r.RequireCounter("lax:S-range", fl(24))
-	r.RequireCounter("lax:x0-sign", fl(12))
-	if !light {
-		r.RequireCounter("group:flip-A", 256)
-		r.RequireCounter("group:flip-S", 256)
+	sort.Strings(names)
+	for _, k := range names {
+		r.RequireCounter(k, want[k])
 	}
+	r.Set("floors", want)
 }
